@@ -293,7 +293,7 @@ def execute(scn, keep_trace=False):
             else:
                 src = path
                 kw["force_as"] = "sph"
-        if scn.get("prior"):
+        if scn.get("prior") and not os.environ.get("VERIF_C12_NO_PRIOR"):  # (development knob: tests the history replay)
             res.probe("decode_after_other_coding" if scn["prior"] != scn["coding"] else "decode_after_same_coding")
             scn0 = dict(scn, coding=scn["prior"], order="10" if scn["prior"] == "pcm" else "1", channels=2, n=300,
                         seed=int(scn["seed"]) ^ 0x777, fault=None, all_codes=False, magic_at=None, coding_field=True,
